@@ -2,15 +2,15 @@ CONSTANTS
   SwitchCurrentEarly = FALSE
   NoNextFileNumberLog = FALSE
   StoreSnapshotLogsManifest = FALSE
-  Reader = {"r1", "r2"}
-  Flusher = {"f1"}
+  Reader = {"r1"}
+  Flusher = {"f1", "f2"}
   MaxFlush = 3
   MaxCompact = 1
-  MaxCleanup = 2
+  MaxCleanup = 1
   CollectActiveFirst = FALSE
   UnpendEarly = FALSE
-  BaseBeforeLock = FALSE
+  BaseBeforeLock = TRUE
 SPECIFICATION MCSpec
-INVARIANTS SnapshotFilesExist NeededFilesExist NoPartialVisible ContentIsCommitted
+INVARIANTS SnapshotFilesExist NeededFilesExist NoPartialVisible ContentIsCommitted RecoveredIsCommitted
 PROPERTIES CleanupRemovesOnlyDead
 CHECK_DEADLOCK FALSE
